@@ -503,12 +503,16 @@ func valueNonNilAt(v ssa.Value, at *ssa.BasicBlock, depth int) bool {
 			}
 		}
 	case *ssa.Phi:
+		all := true
 		for _, e := range x.Edges {
 			if !valueNonNilAt(e, at, depth+1) {
-				return false
+				all = false
+				break
 			}
 		}
-		return true
+		if all {
+			return true
+		}
 	}
 	// dominated by the true edge of `v != nil` (or false edge of `v == nil`)
 	if refs := v.Referrers(); refs != nil {
@@ -1504,8 +1508,8 @@ func checkD9(c *Ctx, r *Report) {
 	}
 	settings := []setting{
 		{"deb", "Overridables.Deb.Compression", map[string]string{"Overridables.Deb.Compression": "no-such-compression"}, "unknown deb compression", false},
-		{"deb", "Overridables.Deb.Signature.Method", map[string]string{"Overridables.Deb.Signature.Type": "no-such-role", "Overridables.Deb.Signature.Method": "debsign"}, "invalid signature type with method debsign", false},
-		{"deb", "Overridables.Deb.Signature.Method", map[string]string{"Overridables.Deb.Signature.Type": "no-such-role", "Overridables.Deb.Signature.Method": ""}, "invalid signature type with the default method", false},
+		{"deb", "Overridables.Deb.Signature.Method", map[string]string{"Overridables.Deb.Signature.Type": "no-such-role", "Overridables.Deb.Signature.Method": "debsign", "Overridables.Deb.Signature.PackageSignature.KeyFile": "key.gpg"}, "invalid signature type with method debsign", false},
+		{"deb", "Overridables.Deb.Signature.Method", map[string]string{"Overridables.Deb.Signature.Type": "no-such-role", "Overridables.Deb.Signature.Method": "", "Overridables.Deb.Signature.PackageSignature.KeyFile": "key.gpg"}, "invalid signature type with the default method", false},
 		{"apk", "Platform", map[string]string{"Platform": "not-linux"}, "apk platform other than linux", true},
 		{"archlinux", "Platform", map[string]string{"Platform": "not-linux"}, "archlinux platform other than linux", true},
 	}
